@@ -36,7 +36,8 @@ TapeOf(e) ==
     LET S == Sends(e.out) IN
     [sends |-> [i \in DOMAIN S |-> [dst |-> S[i].dst, mem |-> S[i].d.mem, items |-> S[i].d.items]],
      order |-> IF HasField(e.hook, "order") THEN IdsOf(e.hook.order) ELSE <<>>,
-     pind |-> IF HasField(e.hook, "probe") THEN e.hook.probe.ind ELSE <<>>]
+     pind |-> IF HasField(e.hook, "probe") THEN e.hook.probe.ind ELSE <<>>,
+     auto |-> FALSE, pref |-> <<>>, hv |-> 0]
 
 \* a datagram built by the specification against the parsed observed one
 DgMatches(s, o) ==
